@@ -108,6 +108,9 @@ func (v DenseInt8Vector) ReverseOrder() {
   }
 }
 func (v DenseInt8Vector) Slice(i, j int) Vector {
+  if j > len(v) {
+    panic(fmt.Errorf("slice [%d:%d] out of bounds for vector of dimension %d", i, j, len(v)))
+  }
   return v[i:j]
 }
 func (v DenseInt8Vector) Swap(i, j int) {
@@ -161,6 +164,9 @@ func (v DenseInt8Vector) ConstAt(i int) ConstScalar {
   return Int8{&v[i]}
 }
 func (v DenseInt8Vector) ConstSlice(i, j int) ConstVector {
+  if j > len(v) {
+    panic(fmt.Errorf("slice [%d:%d] out of bounds for vector of dimension %d", i, j, len(v)))
+  }
   return v[i:j]
 }
 func (v DenseInt8Vector) AsConstMatrix(n, m int) ConstMatrix {
